@@ -138,3 +138,21 @@ func JSONDoc(keys []string, vals [][]byte) []byte {
 
 // RawJSON is a raw JSON value given by its text (`[]`, `null`, `"m"`, `1`).
 func RawJSON(text string) []byte { return []byte(text) }
+
+// Reformat returns the same JSON document with insignificant whitespace added: other bytes (and
+// so another entry hash), the same compact form, the same decoded value.
+func Reformat(content []byte) []byte {
+	out := make([]byte, 0, len(content)+1)
+	done := false
+	for _, c := range content {
+		out = append(out, c)
+		if !done && (c == '{' || c == '[') {
+			out = append(out, ' ')
+			done = true
+		}
+	}
+	if !done {
+		out = append(out, ' ')
+	}
+	return out
+}
